@@ -28,7 +28,7 @@ VARIABLES m, hist, ver, nm
 vars == <<m, hist, ver, nm>>
 
 Structural == {"S:IVORAL", "S:FO", "S:PER", "S:TR", "S:LAG", "S:ZOE", "S:MM"}
-Extension  == {"X:ADDIIV", "X:COVLIN", "X:COVCAT", "X:COVPW", "X:IOV", "X:BOXCOX", "X:COMB", "X:IIVRUV", "X:POWER", "X:TV"}
+Extension  == {"X:REDEF", "X:ADDIIV", "X:COVLIN", "X:COVCAT", "X:COVPW", "X:IOV", "X:BOXCOX", "X:COMB", "X:IIVRUV", "X:POWER", "X:TV"}
 Data       == {"D:FIXTH", "D:ZEROOM", "D:FIXVAR1"}
 Preserving == {"P:MU", "P:DECL", "P:CLEAN", "P:SIMP", "P:GREEK", "P:RENAME", "P:SOLVE", "P:GENERIC", "P:NONMEM",
                "P:UNLOAD", "P:LOAD", "P:UNUSED", "P:JOINT", "P:SPLIT", "P:FIXED", "P:NONRANDOM"}
@@ -43,6 +43,7 @@ Function ==
           [] t = "S:TR" -> "set_transit_compartments(2)" [] t = "S:LAG" -> "add_lag_time"
           [] t = "S:ZOE" -> "set_zero_order_elimination" [] t = "S:MM" -> "set_michaelis_menten_elimination"
           [] t = "X:ADDIIV" -> "add_iiv(parameter without eta, exp)"
+          [] t = "X:REDEF" -> "interleaved reassignments: R = th_a; T = T*R; R = R + th_b; T = T + 1 after the first definition of T"
           [] t = "X:COVLIN" -> "add_covariate_effect(lin)" [] t = "X:COVCAT" -> "add_covariate_effect(cat)"
           [] t = "X:COVPW" -> "add_covariate_effect(piece_lin)" [] t = "X:IOV" -> "add_iov"
           [] t = "X:BOXCOX" -> "transform_etas_boxcox" [] t = "X:COMB" -> "set_combined_error_model"
@@ -106,6 +107,9 @@ Enabled(t) ==
       [] t = "S:ZOE" -> PK /\ m.ode /\ m.elim = "FO" /\ m.tr = 0 /\ m.per = 0 /\ m.names = "orig"
       [] t = "S:MM"  -> PK /\ m.ode /\ m.elim = "FO" /\ m.tr = 0 /\ m.per = 0 /\ m.names = "orig"
       \* a new eta assignment after the existing ones: what a second mu_reference_model has to splice in correctly
+      \* a symbol assigned three times whose middle definition reads another reassigned symbol that changes again before the
+      \* last definition (interleaved redefinitions): what make_declarative / cleanup_model have to bind to the value AT that point
+      [] t = "X:REDEF" -> m.model \in {"pheno", "pred", "flag"} /\ t \notin m.ext /\ m.names = "orig"
       [] t = "X:ADDIIV" -> m.model = "pred" /\ t \notin m.ext /\ m.names = "orig"
       [] t \in {"X:COVLIN", "X:COVCAT", "X:COVPW"} -> PK /\ m.data /\ t \notin m.ext /\ m.names = "orig" /\ m.ode
       [] t = "X:IOV"    -> PK /\ m.data /\ t \notin m.ext /\ "X:BOXCOX" \notin m.ext /\ m.names = "orig" /\ ~m.joint /\ m.ode
